@@ -303,6 +303,38 @@ func ruleMergeDispatch(c *Ctx, r *R) {
 				}
 			}
 			r.ok(guarded, "chans.Merge|reflect-select-guard", call.Pos(), "reflect.Select must be guarded by a non-empty case list on every iteration, including the first: with zero inputs (or after the last one closed) it blocks forever")
+			// … and the loop is left only when that very case list is empty: any other way out (a shortcut for "one input
+			// left" driven by a second list, an error exit) returns while inputs may still be open
+			early := false
+			var earlyPos token.Pos
+			for _, rb := range b.Parent().Blocks {
+				ret, ok := rb.Instrs[len(rb.Instrs)-1].(*ssa.Return)
+				if !ok || !reaches(b, rb) {
+					continue
+				}
+				okExit := false
+				for _, g := range guardsOf(rb) {
+					cf, ok := g.asCmp()
+					if !ok {
+						continue
+					}
+					lc, isLen := cf.x.(*ssa.Call)
+					if !isLen {
+						continue
+					}
+					if bi, ok := lc.Call.Value.(*ssa.Builtin); !ok || bi.Name() != "len" || lc.Call.Args[0] != arg {
+						continue
+					}
+					if (cf.op == token.EQL && isConstInt(cf.y, 0)) || (cf.op == token.LEQ && isConstInt(cf.y, 0)) || (cf.op == token.LSS && isConstInt(cf.y, 1)) {
+						okExit = true
+					}
+				}
+				if !okExit {
+					early = true
+					earlyPos = retPos(ret)
+				}
+			}
+			r.ok(!early, "chans.Merge|reflect-loop-exit", earlyPos, "the reflect loop may be left only when the case list handed to reflect.Select is empty: every other return can happen while an input is still open, so Merge finishes early and that input's values are never forwarded")
 		}
 	}
 	// len(in) == 1 path: range in[0] forwarding to out
